@@ -202,6 +202,42 @@ def run(ctx, res):
         res.ok(rid3, "inherit-before-mapping", ep.loc())
     elif order_ok is False:
         res.violation(rid3, "inherit-before-mapping", "inherited meta-data is inserted after the keys were mapped to prio/assoc/nops/nopse/kind", ep.loc())
+    # ... "that meta-data" is a datum, not a map key: associativity comes under two keys (`left`, `right`) that are mapped to
+    # ONE field. Inheriting by key alone gives a production with its own `left` the rule's `right` as well, and the mapping
+    # applies `right` last (D36). Structural form: when several keys are mapped to the same Production field, the
+    # inheritance has to compare keys with those names somewhere (so that one of them keeps the other out).
+    field_keys = {}
+    def _strs(t):
+        return [mir.const_str(x) for x in mir.walk(t) if mir.const_str(x) is not None]
+    hs = [ep] + F.all_nested_closures(ep)
+    for h in hs:
+        for q in Sim(h, F, max_paths=300000).run():
+            lastkey = None
+            for e in q.events:
+                if e[0] == "call" and e[1].endswith("BTreeMap::<K, V, A>::remove") and len(e[2]) > 1 and _strs(e[2][1]):
+                    lastkey = _strs(e[2][1])[0]
+                elif e[0] == "store" and lastkey and isinstance(e[1], tuple) and e[1][0] == "field" and e[1][2] in ("assoc", "prio", "kind", "nops", "nopse"):
+                    field_keys.setdefault(e[1][2], set()).add(lastkey)
+                    lastkey = None
+    multi = {f: ks for f, ks in field_keys.items() if len(ks) > 1}
+    compared = set()
+    for h in hs:
+        tbh = mir.TermBuilder(h, F)
+        for b, tm in h.calls():
+            nm = mir.strip_generics(callee(tm) or "")
+            if nm.endswith("::eq") or nm.endswith("::ne") or nm.endswith("::contains_key") and False:
+                for a in tm.get("args", []):
+                    for sx in _strs(tbh.operand(a)):
+                        compared.add(sx)
+    if not field_keys:
+        res.undecided(rid3, "the mapping of meta keys to Production fields (remove(key) .. field = ..) was not recognised", ep.loc())
+    for f, ks in sorted(multi.items()):
+        if ks <= compared:
+            res.ok(rid3, "%s-single-datum" % f, ep.loc(), "keys %s are one datum: compared by name in the inheritance" % sorted(ks))
+        else:
+            res.violation(rid3, "%s-single-datum" % f, "the keys %s are mapped to the one field `%s`, but rule meta-data is inherited key "
+                          "by key and nothing compares a key with those names: a production that gives `%s` itself still inherits "
+                          "the rule's `%s`, and the one applied last wins" % (sorted(ks), f, sorted(ks)[0], sorted(ks)[-1]), ep.loc())
     # R4 inline literals
     rid4 = res.rule("C09-R4", "inline string literals resolve to the terminal declared with that string", floor=2)
     ct = F.one(GB.replace(":", r"\:") + "collect_terminals$")
